@@ -232,7 +232,7 @@ func (t *Transport) getConn(addr string) (pc *persistConn, err error) {
 				pc = cq.Dequeue()
 				pc.lastTime = t.now
 				pc.mu.Lock()
-				if !pc.alive {
+				if !pc.usable() {
 					pc.mu.Unlock()
 					if pc, err = t.newPersistConn(addr); err != nil {
 						return nil, err
@@ -250,7 +250,7 @@ func (t *Transport) getConn(addr string) (pc *persistConn, err error) {
 		cursor := cs.Cursor()
 		pc = cs.Conns[cursor]
 		pc.mu.Lock()
-		if !pc.alive {
+		if !pc.usable() {
 			pc.mu.Unlock()
 			if pc, err = t.newPersistConn(addr); err != nil {
 				return nil, err
@@ -267,7 +267,7 @@ func (t *Transport) getConn(addr string) (pc *persistConn, err error) {
 		// Housekeeping parks connections in the idle queue regardless of
 		// liveness, so a dequeued connection has to be checked here as well.
 		pc.mu.Lock()
-		if !pc.alive {
+		if !pc.usable() {
 			pc.mu.Unlock()
 			if pc, err = t.newPersistConn(addr); err != nil {
 				return nil, err
@@ -430,6 +430,18 @@ type persistConn struct {
 	mu       sync.Mutex
 	alive    bool
 	lastTime time.Time
+}
+
+// usable reports whether the connection may be handed to a new call. Go and
+// RoundTrip learn of a failure only when the call completes, so besides the
+// alive flag the connection itself is asked whether it has shut down; a
+// connection found dead here is closed. The caller holds pc.mu.
+func (pc *persistConn) usable() bool {
+	if pc.alive && pc.Conn.isShutdown() {
+		pc.alive = false
+		pc.Close()
+	}
+	return pc.alive
 }
 
 type conns struct {
